@@ -46,9 +46,61 @@ def sig(base, e, h):
     return base + ":shards%d" % (1 if h["opt"].get("shards") else 0)
 
 
+BCFG = "SPECIFICATION %s\nCONSTANTS\n    MaxCalls = %d\n    ShardOf <- %s\nINVARIANTS\n    %s\nCHECK_DEADLOCK FALSE\n"
+
+
+def backendset_conformance(ctx):
+    """The bookkeeping that decides which shard files are rewritten: BackendSet.tla model-checked (ShardsCover under the
+    controller's call protocol), TLC-proposed call sequences replayed on the real container of backends, its whole observable
+    state compared after every call and ShardsCover evaluated on it at every Shrink (TraceBackendSet.tla)."""
+    import json, os, re
+    core.build_harness(ctx, ["chgx"])
+    core.tlc_design(ctx, "design-backendset", "BackendSetMC", None, cfgtext=BCFG % ("Spec", 6 if ctx.quick() else 7, "GuessShard", "ShardsCover"),
+                    workers=core.NCPU, timeout=2400)
+    seqs, seen = [], set()
+    for s in range(1 if ctx.quick() else 8):
+        r = core.tlc(ctx, "gen-backendset-%d" % s, "BackendSetMC", None, cfgtext=BCFG % ("Spec", 12, "GuessShard", "Emit"), workers=1, timeout=900,
+                     simulate="num=%d" % (300 if ctx.quick() else 1500), depth=16, extra=["-seed", str(ctx.seed * 10 + s)])
+        if r["rc"] != 0:
+            raise core.Undecided("backend container sequence generation failed:\n" + r["out"][-2000:])
+        for t in re.findall(r'<<"BEHAVIOUR", "(.*)">>', r["out"]):
+            t = json.loads('"' + t + '"')
+            if t not in seen:
+                seen.add(t)
+                seqs.append(json.loads(t))
+    if len(seqs) < 1000:
+        raise core.Undecided("TLC proposed only %d call sequences for the backend container" % len(seqs))
+    inp, out = ctx.path("bset", "in.json"), ctx.path("bset", "trace.ndjson")
+    json.dump(seqs, open(inp, "w"))
+    core.run([os.path.join(ctx.bindir, "chgx"), "-in", inp, "-out", out], timeout=900, env=dict(VERIF_REPO=core.REPO))
+    n = core.count_lines(out)
+    r = core.tlc(ctx, "judge-backendset", "TraceBackendSet", None, cfgtext=BCFG % ("TraceSpec", 0, "ShardOfT", "Result"), workers=1, timeout=1800,
+                 files={out: "trace.ndjson"})
+    m = re.findall(r'<<"RESULT", "(.*)">>', r["out"])
+    if r["rc"] != 0 or not m:
+        raise core.Undecided("backend container trace validation did not complete:\n" + r["out"][-2000:])
+    res = json.loads(json.loads('"' + m[-1] + '"'))
+    if res["n"] != n:
+        raise core.Undecided("backend container trace validation consumed %d of %d lines" % (res["n"], n))
+    ctx.trace_events += n
+    ctx.traces_validated += len(seqs)
+    if res["drift"]:
+        ctx.notes.append("backend container: %d recorded states differ from BackendSet.tla (model drift, not a violation), first %s"
+                         % (len(res["drift"]), res["drift"][0]))
+    for b in sorted(res["bad"], key=lambda b: (b["call"], b["id"]))[:1]:
+        sf = ctx.path("viol", b["id"] + ".backendset.json")
+        json.dump([seqs[int(b["id"][1:])][:b["call"] + 1]], open(sf, "w"), indent=1)
+        d = core.save_replay(ctx, "BackendSet:ShardsCover", [sf], dict(invariant="ShardsCover", changed=b["changed"], differ=b["differ"],
+                                                                       how="harness/cmd/chgx -in <backendset.json>"))
+        core.classify(ctx, "BackendSet:ShardsCover", "after call %d of sequence %s the backends %s differ from the committed state but only the shards %s "
+                      "are flagged for rewriting: %s" % (b["call"], b["id"], b["differ"], b["changed"], json.dumps(seqs[int(b["id"][1:])][:b["call"] + 1])), d)
+    return len(seqs)
+
+
 def run(ctx):
     core.build_harness(ctx, ["ctl"])
     ctl.design(ctx)
+    nbset = backendset_conformance(ctx)
     q = ctx.quick()
     opts = [dict(shards=s, watchwithoutclass=True) for s in (0, 1, 3)]
     hs = ctl.tlc_histories(ctx, 300 if q else 6000, maxops=3, maxbatches=3, tag="sim", opts=opts)
